@@ -104,7 +104,8 @@ Record ropts := mkR {
   r_meta : bool;                        (* newMetadata <> nil *)
   r_newhost : bytes;                    (* "" = keep *)
   r_newtime : option Z;
-  r_summary_match : bool }.             (* summary = nil, or equal to the snapshot's *)
+  r_summary_match : bool;               (* summary = nil, or equal to the snapshot's *)
+  r_repair : bool }.                    (* repair snapshots (handles unreadable snapshot files) vs rewrite *)
 
 Inductive action :=
   | AErr                                (* error returned, nothing done *)
@@ -235,7 +236,9 @@ Record item := mkI {
   i_identity : bool;               (* generator knows: no filter / repair changed the tree *)
   i_data : list fid;               (* data files uploaded for it in this run *)
   i_new : option (N * snap);       (* observed: new snapshot file saved for it (id, decoded fields) *)
-  i_ret : N }.                     (* observed return value: 0 not observed, 1 error, 2 changed=false, 3 changed=true *)
+  i_ret : N;                       (* observed return value: 0 not observed, 1 error, 2 changed=false, 3 changed=true *)
+  i_unreadable : bool;             (* loading this snapshot file failed (also: transiently, on an intact file) *)
+  i_named : bool }.                (* its id was given on the command line *)
 
 Record case := mk {
   c_cmd : cmd;
@@ -246,7 +249,16 @@ Record case := mk {
   c_trace : list op;               (* successful modifying ops, in order *)
   c_cuts : list (nat * list N) }.  (* crash after k ops: snapshot ids found on disk afterwards *)
 
+(* handleUnreadableSnapshotFile (cmd_repair_snapshots.go): a snapshot file that could not be loaded is
+   removed only on explicit request: --forget AND its id named on the command line; otherwise the run
+   stops with an error.  tag and rewrite stop with the load error. *)
+Definition unreadable_action (o : ropts) (named : bool) : action :=
+  if r_repair o && r_forget o && named then (if r_dry o then ANone true else ARemoveOnly) else AErr.
+
 Definition item_action (c : cmd) (it : item) : action :=
+  if i_unreadable it then
+    match c with CTag _ _ _ => AErr | CRewrite o => unreadable_action o (i_named it) end
+  else
   match c with
   | CTag set add rm =>
       match change_tags (i_old it) (i_sn it) set add rm with
